@@ -283,12 +283,13 @@ fn builder_cases(f: &mut Findings) {
 fn algebra_sweep() {
     let mut f = Findings::new();
     for &(n, m, p) in [(8usize, 2usize, 2usize), (9, 3, 2)].iter() {
-        for wk in 0..3 {
-            let w: Option<DVector<f64>> = match wk { 0 => None, 1 => Some(DVector::from_fn(n, |i, _| 1.0 / (1.0 + i as f64))), _ => Some(DVector::from_fn(n, |i, _| if i == 1 || i == 4 { 0.0 } else { 0.5 + 0.25 * i as f64 })) };
+        for wk in 0..5 {
+            let w: Option<DVector<f64>> = match wk { 0 => None, 1 => Some(DVector::from_fn(n, |i, _| 1.0 / (1.0 + i as f64))), 2 => Some(DVector::from_fn(n, |i, _| if i == 1 || i == 4 { 0.0 } else { 0.5 + 0.25 * i as f64 })),
+                3 => Some(DVector::from_element(n, 0.5)) /* one common weight (constant sigma): still a row scaling by 0.5 */, _ => Some(DVector::from_element(n, 1.0)) /* explicit unit weights */ };
             for s in 1..=3usize {
                 let y = ydata(n, s);
                 let (a1, a2) = (vec![1.3, 4.0], vec![2.1, 6.5]);
-                let cfg = format!("for N={} M={} P={} S={} weights={} alpha={:?}", n, m, p, s, ["none", "1/(1+i)", "zeros at rows 1,4"][wk], a2);
+                let cfg = format!("for N={} M={} P={} S={} weights={} alpha={:?}", n, m, p, s, ["none", "1/(1+i)", "zeros at rows 1,4", "all 0.5", "all 1.0"][wk], a2);
                 let wt = if wk == 0 { "" } else { " C06" };
                 let mr = if s > 1 { " C07" } else { "" };
                 // multiple right-hand-side flavour
@@ -452,11 +453,11 @@ fn algebra_sweep() {
 fn stats_sweep() {
     let mut f = Findings::new();
     let (n, m, p) = (30usize, 2usize, 2usize);
-    for wk in 0..4 {
-        // 0: no weights, 1: varied, 2: two exact zeros, 3: data and weights at a tiny scale
+    for wk in 0..5 {
+        // 0: no weights, 1: varied, 2: two exact zeros, 3: data and weights at a tiny scale, 4: one common weight 0.5
         let scale = if wk == 3 { 1e-18 } else { 1.0 };
         let y = ydata(n, 1).column(0).into_owned() * scale;
-        let w: Option<DVector<f64>> = match wk { 0 => None, 1 | 3 => Some(DVector::from_fn(n, |i, _| 0.5 + 0.1 * (i % 5) as f64)), _ => Some(DVector::from_fn(n, |i, _| if i == 4 || i == 11 { 0.0 } else { 0.5 + 0.1 * (i % 5) as f64 })) };
+        let w: Option<DVector<f64>> = match wk { 0 => None, 1 | 3 => Some(DVector::from_fn(n, |i, _| 0.5 + 0.1 * (i % 5) as f64)), 4 => Some(DVector::from_element(n, 0.5)), _ => Some(DVector::from_fn(n, |i, _| if i == 4 || i == 11 { 0.0 } else { 0.5 + 0.1 * (i % 5) as f64 })) };
         let mut b = LevMarProblemBuilder::new(model(n, m, p)).observations(y.clone());
         if let Some(w) = &w { b = b.weights(w.clone()); }
         let (fit, st) = match LevMarSolver::default().fit_with_statistics(b.build().unwrap()) { Ok(x) => x, Err(_) => continue /* an Err from the statistics (e.g. MatrixInversion) is allowed by C12: nothing to compare */ };
@@ -478,11 +479,13 @@ fn stats_sweep() {
         let hs = DMatrix::from_fn(n, m + p, |i, k| h[(i, k)] / cn[k]);
         let inv_s = (hs.transpose() * &hs).try_inverse().unwrap();
         let cov = DMatrix::from_fn(m + p, m + p, |a, b| inv_s[(a, b)] / (cn[a] * cn[b]) * chi2);
-        let cfg = format!("for N={} M={} P={} weights={}", n, m, p, ["none", "0.5+0.1*(i%5)", "0.5+0.1*(i%5) with exact zeros at rows 4,11", "0.5+0.1*(i%5), data scaled by 1e-18"][wk]);
+        let cfg = format!("for N={} M={} P={} weights={}", n, m, p, ["none", "0.5+0.1*(i%5)", "0.5+0.1*(i%5) with exact zeros at rows 4,11", "0.5+0.1*(i%5), data scaled by 1e-18", "all 0.5"][wk]);
         let wt = if wk == 0 { "" } else { " C06" };
         if (st.reduced_chi2() - chi2).abs() > 1e-6 * chi2 { f.report(&format!("C12{}", wt), "reduced_chi2() differs from |W(y - Phi c)|^2 / (N - M - P)", format!("({:e} vs {:e}) {}", st.reduced_chi2(), chi2, cfg)); }
         if let Some(d) = close(&st.covariance_matrix().clone(), &cov) { f.report(&format!("C13{}", wt), "covariance_matrix() differs from chi2 (H^T H)^-1", format!("(max abs diff {:e}) {}", d, cfg)); }
         if close(&colm(st.weighted_residuals().as_slice()), &colm(r.as_slice())).is_some() { f.report(&format!("C12{}", wt), "weighted_residuals() differ from W(y - Phi c)", cfg.clone()); }
+        // C12: the reported weighted residuals are the final residuals of the fit itself
+        match fit.problem.residuals() { Some(fr) => if close(&colm(st.weighted_residuals().as_slice()), &colm(fr.as_slice())).is_some() { f.report("C12 C02", "weighted_residuals() of the statistics differ from the final residuals() of the fitted problem", cfg.clone()); }, None => f.report("C12 C04", "residuals() of a successfully fitted problem are absent", cfg.clone()) }
         let d = cov.diagonal();
         if close(&colm(st.linear_coefficients_variance().as_slice()), &colm(&d.as_slice()[0..m])).is_some() { f.report("C13", "linear_coefficients_variance() is not the leading diagonal segment", cfg.clone()); }
         if close(&colm(st.nonlinear_parameters_variance().as_slice()), &colm(&d.as_slice()[m..m + p])).is_some() { f.report("C13", "nonlinear_parameters_variance() is not the trailing diagonal segment", cfg.clone()); }
@@ -532,7 +535,7 @@ fn stats_sweep() {
             }
         }
     }
-    f.finish("statistics agree with their defining formulas (4 weight / scale cases); late derivative failures give Err");
+    f.finish("statistics agree with their defining formulas (5 weight / scale cases); late derivative failures give Err");
 }
 
 fn xs(n: usize) -> DVector<f64> { DVector::from_vec((1..=n).map(|i| i as f64).collect::<Vec<_>>()) }
@@ -548,7 +551,7 @@ fn model_sweep() {
         let mut b = SeparableModelBuilder::<f64>::new(names).invariant_function(|x: &DVector<f64>| x.map(|_| 1.0)).function(*order, g);
         for (pos, nm) in order.iter().enumerate() {
             let wgt = [1000., 100., 10., 1.][pos];
-            b = b.partial_deriv(*nm, move |x: &DVector<f64>, _p: f64, _q: f64, _r: f64, _s: f64| x.map(|x| x * wgt));
+            b = b.partial_deriv(*nm, move |x: &DVector<f64>, p: f64, q: f64, r: f64, s: f64| x.map(|x| x * (1e6 * wgt + 1000. * p + 100. * q + 10. * r + s)));
         }
         // every parameter must be used: a second function over all five
         b = b.function(names, |x: &DVector<f64>, a: f64, b: f64, c: f64, d: f64, e: f64| x.map(|x| x + a + b + c + d + e));
@@ -564,8 +567,9 @@ fn model_sweep() {
         for k in 0..5 {
             match mo.eval_partial_deriv(k) {
                 Ok(d) => {
-                    let wgt = match idx.iter().position(|&i| i == k) { Some(pos) => [1000., 100., 10., 1.][pos], None => 0.0 };
-                    if (0..3).any(|i| d[(i, 0)] != 0.0 || d[(i, 1)] != (i as f64 + 1.) * wgt || d[(i, 2)] != 1.0) { f.report("C16", "eval_partial_deriv(k): a derivative is not placed under the model index of its parameter name (or a zero column is not zero)", format!("for k={} and a function over {:?}", k, order)); }
+                    // a derivative receives the SAME named parameters, in the function's own declaration order, as the function
+                    let wgt = match idx.iter().position(|&i| i == k) { Some(pos) => 1e6 * [1000., 100., 10., 1.][pos] + want, None => 0.0 };
+                    if (0..3).any(|i| d[(i, 0)] != 0.0 || d[(i, 1)] != (i as f64 + 1.) * wgt || d[(i, 2)] != 1.0) { f.report("C16", "eval_partial_deriv(k): a derivative is not placed under the model index of its parameter name, does not receive its function's named parameters in declaration order, or a zero column is not zero", format!("for k={} and a function over {:?}", k, order)); }
                 }
                 Err(e) => f.report("C16 C17", "eval_partial_deriv of a valid model fails", format!("{:?}", e)),
             }
@@ -623,6 +627,9 @@ fn model_sweep() {
     expect("function parameter that is not a model parameter", ok(base().function(["a", "z"], f2).partial_deriv("a", f2).partial_deriv("z", f2)), false);
     expect("duplicate function parameters", ok(base().function(["a", "a"], f2).partial_deriv("a", f2)), false);
     expect("model parameter b used by no function", ok(base().function(["a"], f1).partial_deriv("a", f1)), false);
+    expect("model parameter b used by no function although two functions over a bring two derivatives", ok(base().function(["a"], f1).partial_deriv("a", f1).function(["a"], f1).partial_deriv("a", f1)), false);
+    expect("model parameter c used by no function although four derivatives were given for a and b", SeparableModelBuilder::<f64>::new(["a", "b", "c"]).function(["a", "b"], f2).partial_deriv("a", f2).partial_deriv("b", f2).function(["b", "a"], f2).partial_deriv("a", f2).partial_deriv("b", f2).independent_variable(xs(3)).initial_parameters(vec![1., 2., 3.]).build().is_ok(), false);
+    expect("every model parameter used, parameters shared between two functions", SeparableModelBuilder::<f64>::new(["a", "b", "c"]).function(["a", "b"], f2).partial_deriv("a", f2).partial_deriv("b", f2).function(["c", "a"], f2).partial_deriv("a", f2).partial_deriv("c", f2).independent_variable(xs(3)).initial_parameters(vec![1., 2., 3.]).build().is_ok(), true);
     expect("partial_deriv directly after invariant_function", ok(valid().invariant_function(|x: &DVector<f64>| x.clone()).partial_deriv("a", f2)), false);
     expect("partial_deriv after independent_variable (pending function incomplete)", base().function(["a", "b"], f2).partial_deriv("a", f2).independent_variable(xs(3)).partial_deriv("b", f2).initial_parameters(vec![1., 2.]).build().is_ok(), false);
     expect("partial_deriv after initial_parameters (pending function incomplete)", base().function(["a", "b"], f2).partial_deriv("a", f2).initial_parameters(vec![1., 2.]).partial_deriv("b", f2).independent_variable(xs(3)).build().is_ok(), false);
@@ -647,7 +654,7 @@ fn model_sweep() {
     for round in 0..2 { if bad.eval().is_ok() { f.report("C17", "eval() accepts a basis function whose output has the wrong length", format!("(call #{})", round + 1)); } }
     let badd = SeparableModelBuilder::<f64>::new(["a"]).function(["a"], f1).partial_deriv("a", |_x: &DVector<f64>, _a: f64| DVector::from_vec(vec![1.])).independent_variable(xs(3)).initial_parameters(vec![1.]).build().unwrap();
     for round in 0..2 { if badd.eval_partial_deriv(0).is_ok() { f.report("C17", "eval_partial_deriv() accepts a derivative whose output has the wrong length", format!("(call #{})", round + 1)); } }
-    f.finish("routing (4 parameter orders, a 130-parameter model), the builder acceptance matrix (26 sequences) and the misuse cases behave as specified");
+    f.finish("routing (4 parameter orders, a 130-parameter model), the builder acceptance matrix (29 sequences) and the misuse cases behave as specified");
 }
 
 fn main() {
